@@ -200,6 +200,14 @@ def check_law(T, law, twin=False):
             if "raised" in r:
                 return dict(verdict="refuted", paths=total_paths, ms=(time.perf_counter() - t0) * 1000, backend="pyvc",
                             model={"raised": r["raised"], "combo": combo}, combo=combo, detail="operator raises inside the value domain")
+            # definedness side conditions met on the path (inf - inf, log of a negative, division): inside the value
+            # domain the operators must be defined (a NaN is not a semiring value)
+            for (sname, cond, _node) in path.side:
+                sc = smt.prove(list(path.pc) + explog.instances(list(path.pc) + [cond]), cond, want_model=True)
+                if sc["verdict"] == "refuted":
+                    model = {k: smt.model_value(sc["model"], v) for k, v in r["vars"].items()} if sc["model"] is not None else None
+                    return dict(verdict="refuted", paths=total_paths, ms=(time.perf_counter() - t0) * 1000, backend=sc["backend"],
+                                model=model, combo=combo, detail=f"operator undefined inside the value domain ({sname}) on path {path.taken}")
             goal = r["goal"]
             if goal is True:
                 continue
@@ -351,6 +359,7 @@ def cross_check(n=40, seed=0):
                 return w.it.call(w.cls(T), [p, r], {}), getattr(S, T)(p, r)
             (sa, na), (sb, nb) = mk(), mk()
             for opname, op in (("+", ast.Add()), ("*", ast.Mult())):
+                del w.it.path.side[:]
                 try:
                     sv = w.it.binop(op, sa, sb)
                 except I.PyRaise as e:
@@ -360,7 +369,13 @@ def cross_check(n=40, seed=0):
                 except Exception as e:  # noqa: BLE001
                     nv = ("raised", type(e).__name__)
                 count += 1
-                if not _same(sv, nv):
+                if any(z3.is_false(z3.simplify(c)) for (_n, c, _x) in w.it.path.side):
+                    continue    # the operator is undefined here (inf - inf, ...): the definedness obligations decide, not the encoder check
+                try:
+                    same = _same(sv, nv)
+                except Exception:  # noqa: BLE001  (non-concrete / NaN result: not comparable, the law VCs decide)
+                    continue
+                if not same:
                     bad.append((T, opname, repr(na), repr(nb), repr(sv), repr(nv)))
     return count, bad
 
@@ -473,6 +488,11 @@ def run(run, only=None):
                     replay.update(model=m2, native_lhs=l, native_rhs=rr, native_equal=False, found_by="directed native search")
                     found = True
             replay["replayed"] = found
+            if not found and str(r.get("detail", "")).startswith("operator undefined"):
+                # a definedness condition refuted by the solver but not reproducible on the real classes: the ground axioms
+                # for exp/log are incomplete, so this is 'unknown', not a violation
+                run.obligation(name, "unknown", backend=r["backend"], ms=r["ms"], detail=r["detail"] + " (not reproduced natively)")
+                continue
             run.obligation(name, "refuted", backend=r["backend"], ms=r["ms"], detail=f"law fails: {law} for {T}", model=model,
                            replay=replay, signature=f"{T}:{law}")
         else:
